@@ -153,6 +153,16 @@ var (
 		Text: "typestate of local slots: GETLP and SETL on a local are emitted only behind a test of Symbol.LocalAssigned that defines the slot (DEFL) first when it is not yet assigned; LocalAssigned only ever becomes true"}
 	rPORT1 = &Rule{Name: "PORT.1", Floor: 3, Fn: rulePORT1,
 		Text: "text.replace's size-limited re-implementation keeps the cursor logic of the reference strings.Replace: replacement count, match location / advance over an empty pattern, and continuation point are alpha-identical to the building toolchain's strings.Replace"}
+	rCMP4 = &Rule{Name: "CMP.4", Floor: 30, Fn: ruleCMP4,
+		Text: "every arm of a scalar Equals is one comparison of the receiver's and the argument's value (==, bytes.Equal, time.Equal); T.Equals(U) and U.Equals(T) convert the operands identically (a == b iff b == a), and exactly as the ordering arms T < U do (<= is < or ==)"}
+	rPOOL1 = &Rule{Name: "POOL.1", Floor: 2, Fn: rulePOOL1,
+		Text: "sync.Pool typestate: an object is returned to a pool exactly once, by the function that took it, outside loops, and is not used afterwards (a second Put hands one printer to two concurrent format calls)"}
+	rSYM1 = &Rule{Name: "SYM.1", Floor: 5, Fn: ruleSYM1,
+		Text: "a scope's symbol store is written only by Define, DefineBuiltin and defineFree; Resolve records a captured variable only at a function boundary for a non-global, non-builtin symbol and never stores a looked-up outer name in the inner scope"}
+	rLOOP1 = &Rule{Name: "LOOP.1", Floor: 2, Fn: ruleLOOP1,
+		Text: "every for statement in a function reachable from VM.Run other than the dispatch loop is a range, a counted loop, a loop that changes its condition or an open loop with an exit; a counter stepped by a run-time value is guarded against wrapping around (an endless builtin is out of reach of Abort and of the allocation limit)"}
+	rCMP5 = &Rule{Name: "CMP.5", Floor: 10, Fn: ruleCMP5,
+		Text: "copy yields an equal value: for every value type whose Copy builds a new object, Equals is not pointer identity or constant false (listed findings: error and function values)"}
 	rSEARCH1 = &Rule{Name: "SEARCH.1", Floor: 2, Fn: ruleSEARCH1,
 		Text: "the position→file lookup is `last file with Base <= x`: searchFiles is sort.Search over Base > x minus one (or a clone of its documented sibling searchInts), and both containment tests are Base <= p <= Base+Size"}
 )
@@ -162,7 +172,7 @@ func allProperties() []*Property {
 		{ID: "C01",
 			Decided:    "compiler, generic codec, opcode tables and every VM arm agree byte for byte on the instruction format.",
 			NotDecided: "the language semantics themselves (values computed by operators, control flow, scoping, builtins).",
-			Rules:      []*Rule{rCODEC1, rCODEC2, rCODEC3, rCODEC4, rFRESH, rOPARM, rOPDOC, rSEM, rIDX1, rTWIN1, rFAM1}},
+			Rules:      []*Rule{rCODEC1, rCODEC2, rCODEC3, rCODEC4, rFRESH, rOPARM, rOPDOC, rSEM, rIDX1, rTWIN1, rFAM1, rSYM1}},
 		{ID: "C02",
 			Decided:    "instruction format agreement; opcode-class agreement.",
 			NotDecided: "stack balance and jump well-formedness for all compiled programs.",
@@ -174,11 +184,11 @@ func allProperties() []*Property {
 		{ID: "C04",
 			Decided:    "every explicit panic reachable from the scan/parse/compile entry points is recovered in place, proven unreachable from re-checked premises, or a listed finding; scope switches are exhaustive; the globals slot count is checked; compiler scope/loop stacks are balanced on error paths; parser error positions are token/node start positions.",
 			NotDecided: "termination; implicit run-time panics in general (index, nil, slice bounds); that every reported position lies inside the input.",
-			Rules:      []*Rule{rPANIC1, rPANIC2, rPANIC3, rPANIC4, rNILFIELD, rSCOPE1, rJMP2, rNEWPARSER, rPOSARG}},
+			Rules:      []*Rule{rPANIC1, rPANIC2, rPANIC3, rPANIC4, rNILFIELD, rSCOPE1, rJMP2, rNEWPARSER, rPOSARG, rLIT1}},
 		{ID: "C05",
 			Decided:    "the structure that turns any ordinary panic of the VM goroutine into a returned error, waits for that goroutine, and releases the lock by defer on every exit.",
 			NotDecided: "which run-time faults a script can provoke; faults recover() cannot catch are only partly covered (thorough).",
-			Rules:      []*Rule{rREC, rLOCK, rFRESHVM, rFATAL1}},
+			Rules:      []*Rule{rREC, rLOCK, rFRESHVM, rFATAL1, rABORT, rLOOP1}},
 		{ID: "C06",
 			Decided:    "count-then-check at every allocation site with a count-down counter read only against zero; every object the VM creates is counted; every String/Bytes producer in package tengo is guarded or bounded by construction; formatter output grows only behind the limit check; frame pushes are guarded.",
 			NotDecided: "the numbers as run-time facts (exactly N allocations, results unchanged when N grows); allocation inside Go library calls; stdlib-module producers.",
@@ -186,11 +196,11 @@ func allProperties() []*Property {
 		{ID: "C07",
 			Decided:    "atomic abort flag polled once per instruction, abort-then-drain on cancellation, fresh VM per run, lock released by defer.",
 			NotDecided: "the delay bound, goroutine counts and results of later runs as run-time facts.",
-			Rules:      []*Rule{rABORT, rREC, rLOCK}},
+			Rules:      []*Rule{rABORT, rREC, rLOCK, rLOOP1}},
 		{ID: "C08",
 			Decided:    "lock discipline of *Compiled; Copy is deep and fresh (what makes per-clone globals independent).",
 			NotDecided: "absence of data races over all interleavings; equality with the sequential baseline.",
-			Rules:      []*Rule{rLOCK, rCOPY1, rCLONE1, rFRESHVM, rSHARE}},
+			Rules:      []*Rule{rLOCK, rCOPY1, rCLONE1, rFRESHVM, rSHARE, rPOOL1}},
 		{ID: "C09",
 			Decided:    "no route from the storage of an immutable array/map to a write or to a mutable owner, in any function of any package (ownership rule on two fields).",
 			NotDecided: "immutability broken by embedder code or unsafe/reflect (neither occurs in the tree).",
@@ -198,7 +208,7 @@ func allProperties() []*Property {
 		{ID: "C10",
 			Decided:    "Copy is deep and fresh for every container.",
 			NotDecided: "arithmetic results; NaN/±0 laws as numeric facts.",
-			Rules:      []*Rule{rCMP1, rCMP2, rCMP3, rCONV1, rFALSY1, rCOPY1, rTWIN1}},
+			Rules:      []*Rule{rCMP1, rCMP2, rCMP3, rCMP4, rCMP5, rCONV1, rFALSY1, rCOPY1, rTWIN1}},
 		{ID: "C15",
 			Decided:    "type-level round trip of FromInterface/ToInterface; typed accessors call the documented conversion; Set/Get/GetAll guards; lock discipline; conversion table agreement.",
 			NotDecided: "the history clause (a variable reads as the last value set) over all call sequences.",
@@ -206,7 +216,7 @@ func allProperties() []*Property {
 		{ID: "C11",
 			Decided:    "the three variable families' selector-assignment arms are clones; operand decoding of all Local/Free/Global opcodes agrees with the encoder.",
 			NotDecided: "the metamorphic relation itself (needs executing transformed programs).",
-			Rules:      []*Rule{rFAM1, rLOCALTS, rCODEC3}},
+			Rules:      []*Rule{rFAM1, rLOCALTS, rCODEC3, rSYM1}},
 		{ID: "C13",
 			Decided:    "module bodies are compiled against a fresh builtin-only table; the cycle check dominates and walks the import stack; compile-once ordering at the root cache; import = CONST+CALL; exported values pass OpImmutable; file APIs are confined behind the permission flag.",
 			NotDecided: "termination and the exact success condition over all import graphs as a run-time fact.",
@@ -222,7 +232,7 @@ func allProperties() []*Property {
 		{ID: "C17",
 			Decided:    "all output goes through writers guarded by MaxStringLen; explicit panics are the limit error or proven unreachable; width/precision are bounded; printer pooling hygiene; verb dispatch, flag parsing and the verbatim-ported helpers agree with the building toolchain's fmt.",
 			NotDecided: "equality with fmt.Sprintf for all inputs (the non-identical parts of the port: fmtInteger, fmtFloat, fmtC, padding, doFormat's argument handling); implicit index panics inside digit loops.",
-			Rules:      []*Rule{rLIMIT2, rFMT1, rFMT2, rFMT3, rFMT4, rFMT5}},
+			Rules:      []*Rule{rLIMIT2, rFMT1, rFMT2, rFMT3, rFMT4, rFMT5, rPOOL1}},
 		{ID: "C18",
 			Decided:    "the validity automaton equals encoding/json's state by state; validate-before-decode; number typing by '.', 'e', 'E'; escape tables equal the reference's; encoder arms for all named types.",
 			NotDecided: "round-trip equality of values; number and string values after decoding; float formatting.",
